@@ -388,8 +388,9 @@ def check_cross(col, net, sp, P, Q, wit, nsi_only=False, sparse=True, capl=True)
 
 # ------------------------------------------------------------------------------------ whole network
 
-def check_whole(col, net, sp, order, wit):
-    """P = Q = V (in the given order) reproduces the measures of the single network."""
+def check_whole(col, net, sp, order, wit, sparse=True):
+    """P = Q = V (in the given order) reproduces the measures of the single network.
+    sparse=False leaves out the pure-Python `_sparse` twins (O(N^3) sparse-matrix look-ups)."""
     V = list(order)
     idx = np.array(V)
     directed = sp.directed
@@ -447,16 +448,19 @@ def check_whole(col, net, sp, order, wit):
                  c(net.global_clustering))
         col.same("cross_global_clustering/whole-network", wit, c(net.cross_global_clustering, V, V),
                  c(net.global_clustering))
-        col.same("cross_global_clustering_sparse/whole-network", wit, c(net.cross_global_clustering_sparse, V, V),
-                 c(net.global_clustering))
+        if sparse:
+            col.same("cross_global_clustering_sparse/whole-network", wit,
+                     c(net.cross_global_clustering_sparse, V, V), c(net.global_clustering))
         col.same("cross_local_clustering/whole-network", wit, c(net.cross_local_clustering, V, V),
                  c(lambda: sel(net.local_clustering())))
-        col.same("cross_local_clustering_sparse/whole-network", wit, c(net.cross_local_clustering_sparse, V, V),
-                 c(lambda: sel(net.local_clustering())))
+        if sparse:
+            col.same("cross_local_clustering_sparse/whole-network", wit,
+                     c(net.cross_local_clustering_sparse, V, V), c(lambda: sel(net.local_clustering())))
         if any(sp._cross_triples_triangles(v, V)[0] for v in V):   # Network.transitivity() is nan without triples
             col.same("cross_transitivity/whole-network", wit, c(net.cross_transitivity, V, V), c(net.transitivity))
-            col.same("cross_transitivity_sparse/whole-network", wit, c(net.cross_transitivity_sparse, V, V),
-                     c(net.transitivity))
+            if sparse:
+                col.same("cross_transitivity_sparse/whole-network", wit, c(net.cross_transitivity_sparse, V, V),
+                         c(net.transitivity))
         col.same("cross_betweenness/whole-network", wit, c(net.cross_betweenness, V, V),
                  c(lambda: 2 * net.betweenness()))
         col.same("internal_betweenness/whole-network", wit, c(net.internal_betweenness, V),
@@ -950,7 +954,8 @@ def run_large_part(col, gen, part, P=None, Q=None):
             check_cross(col, net, sp, Q, P, dict(wit, P=Q, Q=P), sparse=False, capl=False)
         elif part == "whole":
             order = [int(x) for x in np.random.RandomState(gen["gseed"] + 7).permutation(g["N"])]
-            check_whole(col, net, sp, order, dict(wit, P=None, Q=None, order="RandomState(gseed+7).permutation(N)"))
+            check_whole(col, net, sp, order, dict(wit, P=None, Q=None, order="RandomState(gseed+7).permutation(N)"),
+                        sparse=False)
         elif part.startswith("sparse:"):
             # the pure-Python twins, on a short first list (they need ~1-3 s per node here)
             check_clustering(col, net, sp, P, Q, wit, sparse=True, only=part.split(":", 1)[1])
